@@ -275,6 +275,8 @@ pub fn alphabet_full() -> Vec<Op> {
         Paste(0, 1, 5, 2, 5, 0, 4, 5, false),
         Paste(0, 1, 1, 3, 3, 1, 1, 2, false),
         Paste(0, 1, 1, 1, 3, 0, 1, 2, true),
+        // cross-sheet cut of a dynamic-array anchor to the coordinates of one of its own spill cells
+        Paste(0, 6, 5, 6, 5, 1, 7, 5, true),
         PasteCsv(0, 2, 2, s("1\t2\n3\t=A1")),
         PasteCsv(0, 1, 1, s("x")),
         AutoFillRows(0, 1, 3, 1, 1, 3),
